@@ -6,9 +6,15 @@
   background goroutines left).
 
   The bytes are judged with the independent RFC 7011 parser of Spec/Exp.lean (`ExpSpec.parseMessage`,
-  `parseTemplateRecords`, `sendVerdict`); nothing here mentions the exporter model.
+  `parseTemplateRecords`, `sendVerdict`); nothing here mentions the exporter model - with ONE exception:
+  whether a template the application sent can be rebuilt by the refresher (`unbuildable`) is DERIVED from the
+  template's element types with the model's `Life.makeTemplateSet` (entities.MakeTemplateSet: one
+  `zeroValue` per element), not taken from the scenario's `unrefreshable=` marker; marker and derivation
+  must agree. A UDP session with such a template is judged by `udpUnrefreshable` (the first refresh that
+  finds the template recorded cannot be built and closes the process), every other one by `udpOrdinary`.
 -/
 import IpfixModel.Spec.Exp
+import IpfixModel.Model.Lifecycle
 namespace Ipfix.C14
 open ExpSpec
 
@@ -50,7 +56,12 @@ structure SendObs where
   tRet : Nat
   ok : Bool
   n : Nat
+  /-- the call had not returned when the harness' per-call watchdog (2 s) gave it up; `tRet` = when it gave up -/
+  hung : Bool := false
   deriving Repr
+
+/-- a SendSet call that never returned: the application is blocked inside the library -/
+def anyHung (sends : List SendObs) : Bool := sends.any (·.hung)
 
 /-- the CloseConnToCollector calls: when the first one started, when ALL had returned -/
 structure CloseObs where
@@ -179,8 +190,15 @@ structure UdpObs where
   dgrams : List Timed
   close : CloseObs
   rt : Runtime
+  /-- every set descriptor of the scenario (scheduled sends and tail), called or not -/
+  scheduled : List SetDesc := []
+  /-- the scenario's `unrefreshable=<tid>` marker -/
+  unref : Option Nat := none
+  /-- how much earlier than k * period (counted from the return of InitExportingProcess) the k-th tick may fire -/
+  early : Nat := 0
 
-def udpVerdict (o : UdpObs) : String :=
+/-- the verdict for a session all of whose templates can be refreshed -/
+def udpOrdinary (o : UdpObs) : String :=
   let rv := runtimeVerdict o.close o.rt
   if rv ≠ "holds" then rv
   else if o.plan.length ≠ o.sends.length then "fails observation-shape"
@@ -198,6 +216,83 @@ def udpVerdict (o : UdpObs) : String :=
         | none =>
           if o.dgrams.any (fun d => decide (o.close.done + o.grace < d.t)) then "fails datagram-after-close"
           else sendResultsVerdict o.sends o.close.start o.close
+
+/-! ### A template the refresher cannot rebuild
+
+  `sendRefreshedTemplates` calls `entities.MakeTemplateSet` for every recorded template; that fails for a
+  template with an element `DecodeAndCreateInfoElementWithValue(ie, nil)` refuses (dateTimeMicroseconds,
+  dateTimeNanoseconds, the list types). SENDING such a template works: template records carry no values. The
+  design of the code (and the event model: `Life.LState.refreshTick`, `buildAll ... = none => doClose`) is
+  "a refresh that cannot be built closes the process": nothing is written, the refresher closes the connection
+  and ends, and every later SendSet returns an error. -/
+
+/-- the templates the scenario defines: (id, ordered elements), the first definition of an id wins (updateTemplate) -/
+def planTemplates (descs : List SetDesc) : List (Nat × List IE) :=
+  descs.foldl (fun acc d => match d.ty with
+    | .template => d.recs.foldl (fun a r => Life.regTpl a r.1 (r.2.map (·.1))) acc
+    | _ => acc) []
+
+/-- ids of the templates among them that the model's MakeTemplateSet cannot rebuild -/
+def unbuildable (descs : List SetDesc) : List Nat :=
+  ((planTemplates descs).filter fun p => (Life.makeTemplateSet p.1 p.2).isNone).map (·.1)
+
+/-- the verdict for a session in which the application sends template `u`, which cannot be rebuilt.
+    Ticks fire at k * period after the ticker was made (just before InitExportingProcess returned): the k-th not
+    earlier than k * period - early and - with its work - not later than k * period + slack.
+    `su` = the SendSet call that transmitted (and recorded) `u`:
+      kLo = the first tick that CAN find `u` recorded (k * period >= su.tCall): before it, less `early`, the
+            process is open - every send that has returned by then succeeded, and the ordinary refresh rule holds
+            for the windows that end by then;
+      kHi = the first tick that MUST find it (k * period - early >= su.tRet): after it, plus `slack`, the
+            process is closed - every send called from then on fails and reports 0 bytes, and no datagram
+            arrives later than that + grace;
+    no refresh message arrives later than su.tRet + slack (a refresh that started after `u` was recorded
+    writes nothing); everything that does arrive is well-formed and is a message of the application, intact
+    and in order, or a refresh; the runtime conditions (no panic, no race, Close returned, no goroutine
+    left) are those of every session. -/
+def udpUnrefreshable (o : UdpObs) (u : Nat) : String :=
+  let rv := runtimeVerdict o.close o.rt
+  if rv ≠ "holds" then rv
+  else if o.plan.length ≠ o.sends.length then "fails observation-shape"
+  else match (o.dgrams.zipIdx.find? fun x => !wellFormed o.dom x.1.bytes) with
+  | some (_, i) => s!"fails malformed-datagram #{i}"
+  | none =>
+    match (o.plan.zip o.sends).find? (fun x => decide (x.1.ty = .template) && x.1.recs.any (·.1 == u)) with
+    | none => "fails unrefreshable-template-not-sent"
+    | some (_, su) =>
+      if !su.ok then "fails send-failed-while-open"
+      else
+        let p := max o.period 1
+        let kLo := max 1 ((su.tCall + p - 1) / p)
+        let kHi := max 1 ((su.tRet + o.early + p - 1) / p)
+        let openUntil := min (kLo * p - o.early) o.close.start
+        let closedBy := min (kHi * p + o.slack) o.close.done
+        match walkAll true { tr := { dom := o.dom }, todo := okSends o.plan o.sends } o.dgrams with
+        | .error e => "fails " ++ e
+        | .ok wk =>
+          if !wk.todo.isEmpty then "fails app-message-missing"
+          else
+            match wk.first.find? (fun f => !refreshedEachPeriod o.period o.slack openUntil f.2
+                                              ((wk.refreshes.filter (·.1 == f.1)).map (·.2))) with
+            | some f => s!"fails template-not-refreshed {f.1}"
+            | none =>
+              if wk.refreshes.any (fun r => decide (su.tRet + o.slack < r.2)) then "fails refresh-after-unbuildable-template"
+              else if o.dgrams.any (fun d => decide (closedBy + o.grace < d.t)) then "fails datagram-after-close"
+              else if o.sends.any (fun s => decide (s.tRet < openUntil) && !s.ok) then "fails send-failed-while-open"
+              else if o.sends.any (fun s => decide (closedBy ≤ s.tCall) && s.ok) then "fails send-succeeded-after-failed-refresh"
+              else if o.sends.any (fun s => decide (closedBy ≤ s.tCall) && !s.ok && s.n != 0) then "fails failed-send-reports-bytes"
+              else "holds"
+
+def udpVerdict (o : UdpObs) : String :=
+  if anyHung o.sends then "fails send-never-returned"
+  else
+    match o.unref, unbuildable o.scheduled with
+    | none, [] => udpOrdinary o
+    | some u, [u'] =>
+      if u = u' then udpUnrefreshable o u
+      else s!"fails unrefreshable-marker-mismatch (marker {u}, the model cannot rebuild {u'})"
+    | none, us => s!"fails unrefreshable-marker-mismatch (no marker, the model cannot rebuild {us})"
+    | some u, us => s!"fails unrefreshable-marker-mismatch (marker {u}, the model cannot rebuild {us})"
 
 /-! ## TCP -/
 
@@ -225,7 +320,8 @@ structure TcpObs where
 
 def tcpVerdict (o : TcpObs) : String :=
   let rv := runtimeVerdict o.close o.rt
-  if rv ≠ "holds" then rv
+  if anyHung o.sends then "fails send-never-returned"
+  else if rv ≠ "holds" then rv
   else if o.plan.length ≠ o.sends.length then "fails observation-shape"
   else
     let stream := (o.chunks.map (·.bytes)).flatten
